@@ -335,6 +335,19 @@ impl<C: Suite> Model for M06<C> {
                     });
                     o.calls(1);
                     o.expect(&format!("C06:trait-aggregate_verify-agrees:{}:{}", g, s.name()), matches!(tv, Ok(Ok(()))) == acc && tv.is_ok(), verdict(&v), verdict(&tv));
+                    // the same list as iterators of every shape (size hints exact, absent, partial)
+                    if n <= 8 {
+                        let raw: Vec<(PkP<C>, Vec<u8>)> = list.iter().map(|(p, m)| (p.0, m.clone())).collect();
+                        for (shape, it) in iterator_shapes(&raw) {
+                            let tv = guard(|| match s {
+                                Scheme::Basic => <C as BlsSignatureBasic>::aggregate_verify(it, sigp),
+                                Scheme::Aug => <C as BlsSignatureMessageAugmentation>::aggregate_verify(it, sigp),
+                                Scheme::Pop => <C as BlsSignaturePop>::aggregate_verify(it, sigp),
+                            });
+                            o.calls(1);
+                            o.expect(&format!("C06:trait-aggregate_verify-iterator-shape:{}:{}:{}", g, s.name(), shape), matches!(tv, Ok(Ok(()))) == acc && tv.is_ok(), verdict(&v), verdict(&tv));
+                        }
+                    }
                 }
                 o.record("acc", &[acc as u8]);
                 let key = format!("C06:{}:{}:{:?}:{}", g, s.name(), pat, cls);
